@@ -26,7 +26,9 @@ class CallGraph:
                 if not is_spawn:
                     s.edges[fn].add(c)
                     s.sites[c].append((fn, i))
-                    if t.get("virt"):
+                    if t.get("virt") or (not t.get("res") and tuple(t["def"].rsplit("::", 1)) in dyn and not t["def"].startswith(("std::", "core::", "alloc::"))):
+                        # dyn Trait call, or a call through a generic bound (`C: ConnectionProvider`)
+                        # that rustc leaves unresolved in the generic body:
                         # dyn Trait call: expand to all local impls of that trait method
                         tr = t["def"].rsplit("::", 1)
                         if len(tr) == 2:
